@@ -665,7 +665,7 @@ pub fn run(tier: Tier, seed: u64) -> ! {
         check_property_columns(&mut c, &mut rng, n, kind);
     }
     // random sequences
-    let randoms = tier.pick(30_000, 1_500_000);
+    let randoms = tier.pick(60_000, 1_500_000);
     for k in 0..randoms {
         let mut r = Rng::new(seed, "C15.random", k as u64);
         let shape = shapes[r.below(shapes.len())];
